@@ -327,6 +327,17 @@ namespace osmium {
                     }
                 }
 
+                void search(std::vector<int>& visited, int node, int depth) {
+                    if (depth > 3) {
+                        return;
+                    }
+                    visited.push_back(node);
+                    search(visited, node + 1, depth + 1);
+                    if (depth == 0) {                                                            // A5: popped on one path only
+                        visited.pop_back();
+                    }
+                }
+
                 void classify_tentatively() {
                     for (auto& ring : m_rings) {
                         if (!ring.is_outer()) {
@@ -432,6 +443,8 @@ namespace osmium {
                     classify_tentatively();
                     add_new_ring(&m_segment_list.front());
                     (void)try_to_merge(std::vector<ring_end>{});
+                    std::vector<int> visited;
+                    search(visited, 0, 0);
                     return true;
                 }
             };
